@@ -780,8 +780,18 @@ mod miette_adapter {
 
             let (offset, length) = match self.0.line_col {
                 LineColLocation::Pos((_, c)) => (c - 1, 1),
-                LineColLocation::Span((_, start_c), (_, end_c)) => {
-                    (start_c - 1, end_c - start_c + 1)
+                LineColLocation::Span((start_l, start_c), (end_l, end_c)) => {
+                    // only the first line is the source code here: a span that goes on to a
+                    // later line (where its end column may be smaller) is labelled up to the
+                    // end of that line
+                    let length = if start_l == end_l && start_c <= end_c {
+                        end_c - start_c + 1
+                    } else {
+                        (self.0.inner.line.chars().count() + 1)
+                            .saturating_sub(start_c)
+                            .max(1)
+                    };
+                    (start_c - 1, length)
                 }
             };
 
